@@ -914,7 +914,7 @@ def check_beliefs(cx, iid="C03.B"):
                     inst.site(b, loc, "debug_assert (shape not recognised)")
                     continue
                 rec = inst.site(b, loc, "debug_assert " + norm_vars(" ∧ ".join(belief))[:100])
-                params = set(re.findall(r"\barg(\d+)\b", " ".join(belief)))
+                params = set(re.findall(r"\barg(\d+)\b", _strip_index(" ".join(belief))))
                 if not params or b.path not in net_reach:
                     continue
                 # wire-fed: a caller reachable from handle_frame passes (something derived from) one of
@@ -973,6 +973,21 @@ def check_beliefs(cx, iid="C03.B"):
                                    "the code asserts `%s` only in debug builds, the parameter is fed from a decoded frame field (%s) and no runtime guard or value-domain fact implies it"
                                    % (bl, "; ".join(sorted({o.path + ":" + ae[:60] for o, _, _, ae in wire}))[:240]),
                                    at=b.span_at(loc))
+
+
+def _strip_index(s):
+    """drop `[...]` index sub-expressions: a parameter used only to select a slot of internal state
+    is not what the belief is about"""
+    out = []
+    depth = 0
+    for c in s:
+        if c == "[":
+            depth += 1
+        elif c == "]":
+            depth -= 1
+        elif depth == 0:
+            out.append(c)
+    return "".join(out)
 
 
 def _root_locals(ob, a):
